@@ -62,7 +62,7 @@ func (r *restoreOracle) State(c *explore.Ctx, w *world.World) {
 		on, off world.Action
 	}
 	var toggles []toggle
-	for _, a := range [][]byte{uni.A0, uni.B0, uni.C1} {
+	for _, a := range append([][]byte{uni.A0, uni.B0, uni.C1}, r.o.extra...) {
 		if !spec.Frozen(w.Get(a), tF) {
 			toggles = append(toggles, toggle{"freeze", uni.SysCall(a, vmcommon.BuiltInFunctionESDTFreeze, uni.F), uni.SysCall(a, vmcommon.BuiltInFunctionESDTUnFreeze, uni.F)})
 		}
@@ -71,6 +71,10 @@ func (r *restoreOracle) State(c *explore.Ctx, w *world.World) {
 		for _, tok := range [][]byte{uni.F, uni.S} {
 			if !spec.Paused(w, uint32(sh), string(tok)) {
 				toggles = append(toggles, toggle{"pause", uni.PauseCall(sh, vmcommon.BuiltInFunctionESDTPause, tok), uni.PauseCall(sh, vmcommon.BuiltInFunctionESDTUnPause, tok)})
+				if r.o.sysFlavours && sh > 0 {
+					// paused through the canonical address, released through the shard-flavoured one
+					toggles = append(toggles, toggle{"pause", uni.PauseCall(sh, vmcommon.BuiltInFunctionESDTPause, tok), uni.PauseCallAt(sh, vmcommon.BuiltInFunctionESDTUnPause, tok)})
+				}
 			}
 		}
 	}
@@ -129,7 +133,7 @@ func amountsProfile(property string, tier Tier) *explore.Profile {
 					b.Must(uni.ESDTTransfer(a0, b0, uni.F, 1))
 					b.Must(call(a0, a0, vmcommon.BuiltInFunctionESDTLocalMint, uni.F, uni.Big(1)))
 				}
-				out = append(out, explore.SeedState{Name: fmt.Sprintf("prior%d", i), W: b.W})
+				out = append(out, explore.SeedState{Name: fmt.Sprintf("prior%d", i), W: b.W, Legs: b.Legs, Failed: b.Failed})
 			}
 			return out
 		},
